@@ -13,7 +13,11 @@
 (*          changes (evaluated on the logged projections themselves).                                 *)
 EXTENDS Lifecycle, TraceLib
 
-CONSTANT Focus
+CONSTANTS Focus,
+          Strict     \* (Focus C12) TRUE: requested plate ids are taken as the specification's ids and the logged plate ids / plate mapping
+                     \*   must equal the specification's (plate id = rank of the plate name): conformance, reported as drift;
+                     \* FALSE: a requested id stands for the plate NAME it has in the real object (logged), and the logged ids only have to
+                     \*   identify plates - C12 does not say how plates are numbered
 VARIABLES tid, l
 T == Traces[tid]
 Ev == T.events[l]
@@ -21,7 +25,16 @@ SetOf(q) == {q[x] : x \in 1..Len(q)}
 
 TInit == tid \in 1..Len(Traces) /\ l = 1 /\ Init
 
+\* ids of the specification's screen s whose plates carry one of these names (+ an id that names no plate)
+NameIds(s, names) == {s.pid[x] : x \in {y \in Pos(s) : s.pl[y] \in names}}
+ReqIds(s, names, unk) == NameIds(s, SetOf(names)) \cup (IF unk THEN {-1} ELSE {})
+IdOfName(s, nm) == IF NameIds(s, {nm}) = {} THEN -7 ELSE CHOOSE i \in NameIds(s, {nm}) : TRUE
 Act(e) ==
+    IF ~Strict /\ e.op = "reveal" THEN Reveal(e.h, ReqIds(scr[e.h], e.Sn, e.unk))
+    ELSE IF ~Strict /\ e.op = "set_observed" THEN SetObserved(e.h, NameIds(scr[e.h], SetOf(e.Pn)))
+    ELSE IF ~Strict /\ e.op = "merge" THEN MergePlates(e.h, IdOfName(scr[e.h], e.an), IdOfName(scr[e.h], e.bn))
+    ELSE IF ~Strict /\ e.op = "cli_reveal" THEN CliReveal(e.p, e.q, ReqIds(files[e.p], e.Sn, e.unk))
+    ELSE
     CASE e.op = "split" -> Split(SetOf(e.sel))
       [] e.op = "reveal" -> Reveal(e.h, SetOf(e.S))
       [] e.op = "mask" -> Mask(e.h)
@@ -38,7 +51,9 @@ Enabled(e) == CASE e.op = "split" -> SetOf(e.sel) \in SplitChoices(scr["train"])
 (* ---- C12 ---- *)
 Eq12(a, s) == IF ~s.live THEN ~a.live
               ELSE /\ a.live /\ a.sample = Proj(s).sample /\ a.treat = Proj(s).treat /\ a.plate = Proj(s).plate
-                   /\ a.val = s.val /\ a.mask = s.mask /\ a.pids = PlateIds(s) /\ a.pmap = PlateEnc(s).mapping
+                   /\ a.val = s.val /\ a.mask = s.mask
+                   /\ IF Strict THEN a.pids = PlateIds(s) /\ a.pmap = PlateEnc(s).mapping
+                      ELSE \A x, y \in 1..Len(a.pids) : (a.pids[x] = a.pids[y]) <=> (a.plate[x] = a.plate[y])      \* ids identify plates
                    /\ a.meta.size = Meta(s).size /\ a.meta.n_plates = Meta(s).n_plates
                    /\ a.meta.n_unobserved_plates = Meta(s).n_unobserved_plates
                    /\ a.meta.n_observed_plates = Meta(s).n_observed_plates
@@ -78,7 +93,8 @@ Step03 == /\ Check(tid, l, "train-ids-follow-prepared-mapping-after-" \o Ev.op, 
           /\ UNCHANGED vars
 
 (* ---- C02 ---- *)
-Prev == IF l = 1 THEN [train |-> Proj(Prepared), test |-> [live |-> FALSE], files |-> [p \in Paths |-> [live |-> FALSE]]]
+\* (the state before the first event is the LOGGED projection of the prepared screen: C02 compares real objects with each other)
+Prev == IF l = 1 THEN [train |-> T.prepared, test |-> [live |-> FALSE], files |-> [p \in Paths |-> [live |-> FALSE]]]
         ELSE T.events[l - 1].after
 Step02 == /\ (Ev.op = "save" =>
                  /\ Check(tid, l, "file-equals-saved-screen", Ev.after.files[Ev.p] = Ev.after[Ev.h])
